@@ -24,7 +24,7 @@ def main():
     sdir = os.path.join(VERIF, a.root, a.name)
     meta = json.load(open(os.path.join(sdir, "meta.json")))
     ALL = ["C%02d" % i for i in range(1, 21)]
-    checks = ALL if a.checks == "all" else a.checks.split(",") if a.checks else [meta["property"]]
+    checks = ALL if a.checks == "all" else a.checks.split(",") if a.checks else (meta.get("checks") or [meta["property"]])
     wt = "/var/tmp/seedrun-%s" % a.name
     sh(["git", "-C", "/repo", "worktree", "remove", "--force", wt])
     r = sh(["git", "-C", "/repo", "worktree", "add", "--detach", wt, "HEAD"])
